@@ -122,37 +122,6 @@ func ruleNoUncancellableBlock() check.Rule {
 					switch b.What {
 					case "wait":
 						report(b, "wait", resNode(b.Pkg.TypesInfo, b.Recv, b.Expr))
-						// a subscription that is handed to a composite must be handed over before it is awaited
-						if wn := resNode(b.Pkg.TypesInfo, b.Recv, b.Expr); wn != "" && b.Node != nil {
-							fn := innermostFunc(m, b.Pkg, b.Node)
-							registeredAtAll := false
-							for _, op := range sc.SubOps {
-								if op.Method == "AddUnsubscribable" && op.Call != nil && innermostFunc(m, op.Pkg, op.Call) == fn && resNode(op.Pkg.TypesInfo, op.Arg, op.ArgExpr) == wn &&
-									resNode(op.Pkg.TypesInfo, op.Recv, op.RecvExpr) != wn && resNode(op.Pkg.TypesInfo, nil, op.RecvExpr) != resNode(op.Pkg.TypesInfo, nil, op.ArgExpr) {
-									registeredAtAll = true // handed to something other than itself
-								}
-							}
-							if !registeredAtAll && strings.HasPrefix(wn, "site#") {
-								c.Report(armed, fmt.Sprintf("%s/%s/registered-before-wait#%d", sc, model.CtxKey(b.Ctx, b.Slot), cnt["wait"]), b.Pos, "the awaited subscription is never handed to a composite subscription of the operator: while the wait lasts the operator's teardown (returned only afterwards) cannot reach it, and nothing else can unsubscribe this source")
-							}
-							for _, op := range sc.SubOps {
-								if op.Method != "AddUnsubscribable" || op.Call == nil || innermostFunc(m, op.Pkg, op.Call) != fn {
-									continue
-								}
-								if resNode(op.Pkg.TypesInfo, op.Arg, op.ArgExpr) != wn {
-									continue
-								}
-								key := fmt.Sprintf("%s/%s/registered-before-wait#%d", sc, model.CtxKey(b.Ctx, b.Slot), cnt["wait"])
-								addCall := op.Call
-								if pathsPassBefore(funcBody(fn), b.Node, func(n ast.Node) bool { return n.Pos() <= addCall.Pos() && addCall.End() <= n.End() }) {
-									if armed {
-										c.OK(key, b.Pos, "the awaited subscription is handed to its composite before the wait starts")
-									}
-								} else {
-									c.Report(armed, key, b.Pos, "the subscription is awaited before it is handed to the composite subscription that is meant to cancel it: while the wait lasts nothing can unsubscribe this source")
-								}
-							}
-						}
 					case "range-chan":
 						report(b, "range-chan", resNode(b.Pkg.TypesInfo, nil, b.Expr))
 					case "select":
@@ -188,6 +157,61 @@ func ruleNoUncancellableBlock() check.Rule {
 				})
 			}
 			unknownsFailClosed(c)
+		},
+	}
+}
+
+// AWAITED-REGISTERED: a subscription that is awaited inside the subscribe function is first handed to a composite
+// subscription of the operator (so that something can unsubscribe it while the wait lasts).
+func ruleAwaitedRegistered() check.Rule {
+	return check.Rule{
+		Name: "AWAITED-REGISTERED",
+		Doc:  "every subscription that an operator awaits (Subscription.Wait) before its subscribe function returns is handed to a composite subscription of the operator with AddUnsubscribable - something other than itself - on every path before the wait starts: while the wait lasts the operator's own teardown does not exist yet, so the composite is the only handle through which the attempt can be cancelled",
+		Run: func(c *check.Ctx) {
+			m := c.M
+			for _, sc := range m.SCs {
+				armed := c.Armed(sc)
+				cnt := map[string]int{}
+				for _, b := range sc.Blocks {
+					if !synchronousWithSubscribe(b.Ctx) || b.What != "wait" {
+						continue
+					}
+					cnt["wait"]++
+					c.Inc("awaited_subscriptions", 1)
+					// a subscription that is handed to a composite must be handed over before it is awaited
+					if wn := resNode(b.Pkg.TypesInfo, b.Recv, b.Expr); wn != "" && b.Node != nil {
+						fn := innermostFunc(m, b.Pkg, b.Node)
+						registeredAtAll := false
+						for _, op := range sc.SubOps {
+							if op.Method == "AddUnsubscribable" && op.Call != nil && innermostFunc(m, op.Pkg, op.Call) == fn && resNode(op.Pkg.TypesInfo, op.Arg, op.ArgExpr) == wn &&
+								resNode(op.Pkg.TypesInfo, op.Recv, op.RecvExpr) != wn && resNode(op.Pkg.TypesInfo, nil, op.RecvExpr) != resNode(op.Pkg.TypesInfo, nil, op.ArgExpr) {
+								registeredAtAll = true // handed to something other than itself
+							}
+						}
+						if !registeredAtAll && strings.HasPrefix(wn, "site#") {
+							c.Report(armed, fmt.Sprintf("%s/%s/registered-before-wait#%d", sc, model.CtxKey(b.Ctx, b.Slot), cnt["wait"]), b.Pos, "the awaited subscription is never handed to a composite subscription of the operator: while the wait lasts the operator's teardown (returned only afterwards) cannot reach it, and nothing else can unsubscribe this source")
+						}
+						for _, op := range sc.SubOps {
+							if op.Method != "AddUnsubscribable" || op.Call == nil || innermostFunc(m, op.Pkg, op.Call) != fn {
+								continue
+							}
+							if resNode(op.Pkg.TypesInfo, op.Arg, op.ArgExpr) != wn {
+								continue
+							}
+							key := fmt.Sprintf("%s/%s/registered-before-wait#%d", sc, model.CtxKey(b.Ctx, b.Slot), cnt["wait"])
+							addCall := op.Call
+							if pathsPassBefore(funcBody(fn), b.Node, func(n ast.Node) bool { return n.Pos() <= addCall.Pos() && addCall.End() <= n.End() }) {
+								if armed {
+									c.OK(key, b.Pos, "the awaited subscription is handed to its composite before the wait starts")
+								}
+							} else {
+								c.Report(armed, key, b.Pos, "the subscription is awaited before it is handed to the composite subscription that is meant to cancel it: while the wait lasts nothing can unsubscribe this source")
+							}
+						}
+					}
+
+				}
+			}
 		},
 	}
 }
@@ -338,7 +362,7 @@ func C14() *check.Property {
 		Title:    "Downstream termination cancels upstream without waiting for it",
 		Patterns: cat(CorePatterns, PluginPkgs, []string{PromPkg}, RatePkgs),
 		Scope:    []string{ro},
-		Rules:    []check.Rule{ruleNoUncancellableBlock(), ruleCtxWatch(), ruleCtxDoneTerminates(), ruleRetryCtx(), ruleRelease(), ruleSelfUnsubscribe(), ruleAddTeardown(), ruleFinalizerDiscipline(), ruleNoEmitUnderTeardownLock()},
+		Rules:    []check.Rule{ruleNoUncancellableBlock(), ruleAwaitedRegistered(), ruleCtxWatch(), ruleCtxDoneTerminates(), ruleRetryCtx(), ruleRelease(), ruleSelfUnsubscribe(), ruleAddTeardown(), ruleFinalizerDiscipline(), ruleNoEmitUnderTeardownLock()},
 		Explanation: "Static argument: upstream release is the teardown chain (RELEASE, SELF-UNSUBSCRIBE, ADD-TEARDOWN — the positive half, shared with C03), and an operator's teardown exists only once its subscribe function has returned. " +
 			"NO-UNCANCELLABLE-BLOCK therefore lists every unbounded wait that executes before the subscribe closure returns (Wait, Collect, range over a channel, select without a timer case — located through the model's contexts, " +
 			"including waits in upstream slots that run inside the closure) and accepts it only when the waited-on object is released by something registered on the destination itself. CTX-WATCH checks the context case of the context-aware sources.",
